@@ -166,23 +166,27 @@ static int make_file(uint64_t fseed, int codec, long rows, int cols) {
         if (carquet_schema_add_column(schema, name, col_type[c], NULL, CARQUET_REPETITION_REQUIRED,
                                       col_type[c] == CARQUET_PHYSICAL_FIXED_LEN_BYTE_ARRAY ? 16 : 0) != CARQUET_OK) { carquet_schema_free(schema); return 3; }
     }
+    /* rows >= 200000: ONE row group, ONE batch = ONE page per column (page bodies of more than a MiB: reads longer than
+     * any slice size an I/O layer might cut them into); otherwise row groups of 8192 rows in pages of 1024 rows */
+    int big = rows >= 200000;
+    long grows = big ? rows : PAR_GROUP_ROWS, prows = big ? rows : PAR_PAGE_ROWS;
     carquet_writer_options_t wo; carquet_writer_options_init(&wo);
     wo.compression = (carquet_compression_t)codec;
-    wo.page_size = PAR_PAGE_SIZE;
+    wo.page_size = big ? 256 * 1024 * 1024 : PAR_PAGE_SIZE;
     carquet_writer_t* w = carquet_writer_create(g_file.path, schema, &wo, &err);
     if (!w) { carquet_schema_free(schema); return 4; }
     for (int c = 0; c < cols; c++) g_file.content[c] = FNV0;
     int rc = 0;
-    uint8_t* vals = h_alloc((size_t)PAR_GROUP_ROWS * 16);
-    uint8_t* strs = h_alloc((size_t)PAR_GROUP_ROWS * 16);
-    carquet_byte_array_t* bas = (carquet_byte_array_t*)h_alloc(sizeof(carquet_byte_array_t) * PAR_GROUP_ROWS);
-    for (long g0 = 0; g0 < rows && !rc; g0 += PAR_GROUP_ROWS) {
-        long gn = rows - g0 < PAR_GROUP_ROWS ? rows - g0 : PAR_GROUP_ROWS;
+    uint8_t* vals = h_alloc((size_t)grows * 16);
+    uint8_t* strs = h_alloc((size_t)grows * 16);
+    carquet_byte_array_t* bas = (carquet_byte_array_t*)h_alloc(sizeof(carquet_byte_array_t) * (size_t)grows);
+    for (long g0 = 0; g0 < rows && !rc; g0 += grows) {
+        long gn = rows - g0 < grows ? rows - g0 : grows;
         if (g0 > 0 && carquet_writer_new_row_group(w) != CARQUET_OK) { rc = 5; break; }
         for (int c = 0; c < cols && !rc; c++) {
             /* BOOLEAN and BYTE_ARRAY: one batch (= one page) per row group; others one batch per
              * PAR_PAGE_ROWS rows, each of which alone reaches page_size and closes its page */
-            long step = (col_type[c] == CARQUET_PHYSICAL_BOOLEAN || col_type[c] == CARQUET_PHYSICAL_BYTE_ARRAY) ? gn : PAR_PAGE_ROWS;
+            long step = (col_type[c] == CARQUET_PHYSICAL_BOOLEAN || col_type[c] == CARQUET_PHYSICAL_BYTE_ARRAY) ? gn : prows;
             for (long b0 = 0; b0 < gn && !rc; b0 += step) {
                 long bn = gn - b0 < step ? gn - b0 : step;
                 for (long i = 0; i < bn; i++) {
@@ -418,6 +422,33 @@ static void do_par_indep(hctx* h, uint64_t fseed, int codec, long rows, int cols
     free(buf);
 }
 
+/* ------------------------------------------------------------------ op: par_nested */
+/* Two application threads of the application's OWN `omp parallel` region, each with its own reader and batch reader asking
+ * for `nt` threads: nested parallelism is off by default, so the library's inner team has ONE thread whatever num_threads
+ * says.  Every column must still be read (work must be shared by the ACTUAL team size). */
+#include <omp.h>
+static void do_par_nested(hctx* h, uint64_t fseed, int codec, long rows, int cols, int mode, int nt, long bs) {
+    fprintf(h->out, "par_nested fseed=%llu codec=%d rows=%ld cols=%d mode=%d nt=%d bs=%ld",
+            (unsigned long long)fseed, codec, rows, cols, mode, nt, bs);
+    h_call(h);
+    int mk = make_file(fseed, codec, rows, cols);
+    if (mk) { fprintf(h->out, " | mk=%d triv=1\n", mk); h->n_lines++; return; }
+    long blen = 0; uint8_t* buf = mode == 2 ? slurp(g_file.path, &blen) : NULL;
+    const par_result* ref = reference(buf, blen, mode, bs);
+    par_result rr[2]; memset(rr, 0, sizeof rr);
+    #pragma omp parallel num_threads(2)
+    {
+        int t = omp_get_thread_num();
+        if (t < 2) read_all(g_file.path, buf, blen, mode, nt, bs, cols, &rr[t]);
+    }
+    int same = 1;
+    for (int t = 0; t < 2; t++) if (rr[t].st != ref->st || rr[t].nb != ref->nb || rr[t].rows != ref->rows || rr[t].dg != ref->dg) same = 0;
+    fprintf(h->out, " | st=%d,%d dg=%llu,%llu ref_st=%d ref_dg=%llu p_same_as_alone=%d\n", rr[0].st, rr[1].st,
+            (unsigned long long)rr[0].dg, (unsigned long long)rr[1].dg, ref->st, (unsigned long long)ref->dg, same);
+    h->n_lines++;
+    free(buf);
+}
+
 /* ------------------------------------------------------------------ op: par_bad */
 /* One column of the file is damaged (last byte of the LAST column's chunk in row group 0: its page fails the CRC test at
  * once) while the other columns are intact.  The batch reader must report the failure for every num_threads exactly as it
@@ -626,6 +657,8 @@ static void gen_par(hctx* h) {
             if (!pth_only) for (int ti = 1; ti < 5; ti++)
                 for (int rep = 0; rep < (h->thorough ? 6 : 3); rep++)
                     do_par_bad(h, fseed, codec, rows, cols, (ci + rep) % 3, nts[ti], bs, 1 + h_below(h, 1u << 30));
+            /* the library called from inside the application's own parallel region */
+            if (!pth_only) do_par_nested(h, fseed, codec, rows, cols, ci % 3, 4, bs);
             /* cold start, in a fresh process each */
             do_par_cold(h, fseed, codec, rows, cols, (int)h_below(h, 3), 8, 1, bs, 1 + h_below(h, 1u << 30), 0);
             if (!pth_only) do_par_cold(h, fseed, codec, rows, cols, ci % 3, 1, 8, bs, 1 + h_below(h, 1u << 30), 1);
@@ -634,6 +667,9 @@ static void gen_par(hctx* h) {
                 do_par_cold(h, fseed, codec, rows, cols, 1, 6, 2, bs, 1 + h_below(h, 1u << 30), 0);
             }
         }
+        /* page bodies of more than a MiB, stdio mode, several threads, perturbed schedule */
+        if (!pth_only) for (int ti = 1; ti < 4; ti++)
+            do_par_read(h, 7 + (uint64_t)round, round % 2 ? CARQUET_COMPRESSION_SNAPPY : CARQUET_COMPRESSION_UNCOMPRESSED, 300000, 2, 0, nts[ti], 65536, 1 + h_below(h, 1u << 30));
         do_par_cold(h, 1, 0, 1024, 2, 0, 8, 1, 1024, 1 + h_below(h, 1u << 30), 2);
         do_par_cold(h, 1, 0, 1024, 2, 0, 16, 1, 1024, 1 + h_below(h, 1u << 30), 2);
     }
@@ -652,6 +688,7 @@ static int replay_par(hctx* h, const h_line* l) {
     long rows = (long)h_ll(h_in(l, "rows")), bs = (long)h_ll(h_in(l, "bs"));
     if (!strcmp(l->op, "par_read")) { do_par_read(h, fseed, codec, rows, cols, mode, nt, bs, sched); drop_file(); return 1; }
     if (!strcmp(l->op, "par_bad")) { do_par_bad(h, fseed, codec, rows, cols, mode, nt, bs, sched); drop_file(); return 1; }
+    if (!strcmp(l->op, "par_nested")) { do_par_nested(h, fseed, codec, rows, cols, mode, nt, bs); drop_file(); return 1; }
     if (!strcmp(l->op, "par_indep")) { do_par_indep(h, fseed, codec, rows, cols, mode, (int)h_ll(h_in(l, "n")), nt, bs, sched); drop_file(); return 1; }
     if (!strcmp(l->op, "par_cold")) { do_par_cold(h, fseed, codec, rows, cols, mode, (int)h_ll(h_in(l, "n")), nt, bs, sched, (int)h_ll(h_in(l, "kind"))); drop_file(); return 1; }
     return 0;
